@@ -71,7 +71,10 @@ class WorkerRegistry(collections.UserDict[str, float | None]):
   def register(self, address: str, time_: float):
     """Register a new client."""
     with self._lock:
-      self.data[address] = time_
+      last_time = self.data.get(address)
+      # Heartbeat handlers run concurrently and can arrive out of order: a live
+      # entry never moves backwards. A dead (None) or unknown entry is revived.
+      self.data[address] = time_ if last_time is None else max(last_time, time_)
     logging.info('chainable: %s', f'registering worker "{address}"')
 
   def unregister(self, address: str):
